@@ -212,8 +212,10 @@ func c09Variants(ss []sym, m gramResult, f func(name, src string, cmIdx int)) {
 			if prev != nil && prev.kind != kNL {
 				note(b, " #k", "comment before newline", commentsBefore[b])
 				f("comment before newline", renderAtoms(ss, at, only(b, " #k")), commentsBefore[b])
-				// a comment is plain text up to the newline, whatever characters it holds
-				f("comment before newline «`'\")k\\»", renderAtoms(ss, at, only(b, " #`'\")k\\")), commentsBefore[b])
+				// a comment is plain text up to the newline, whatever characters it holds (sentences of ≤ 6 symbols)
+				if len(ss) <= 6 {
+					f("comment before newline «`'\")k\\»", renderAtoms(ss, at, only(b, " #`'\")k\\")), commentsBefore[b])
+				}
 			}
 		case intra:
 			note(b, "\\\n", "backslash-newline inside "+cur.text, -1)
@@ -423,6 +425,9 @@ func c09Run(w *W) {
 		ss := syms(append(append([]string{}, texts...), "\n")...)
 		c09Sentence(w, ss)
 		// the multi-line layout as a base of its own: comments, blanks and extra newlines at every inner newline
+		if !w.thorough() && (name == "DH" || name == "D1" && len(texts) > 12) {
+			return // quick tier: the long sentences in their one-line layout only
+		}
 		if m := gramParse(ss); m.ok {
 			if ml := multiLine(ss, m); render(ml).src != render(ss).src {
 				c09Sentence(w, ml)
